@@ -463,7 +463,7 @@ Callout.encode_safe = _encode_safe
 SRC_TYPES = ["BD", "11", "BC", "B7", "B1", "A7", "C1"]
 
 
-def gen_src(rng, u, primary, creator, srctype=None, refcode=None, ncallouts=None, wordcount=None, reg=None):
+def gen_src(rng, u, primary, creator, srctype=None, refcode=None, ncallouts=None, wordcount=None, reg=None, words=None):
     """reg: optional registry model (vf.fixtures) used to aim reason codes at defined messages."""
     t = srctype or (rng.choice(SRC_TYPES[:3]) if rng.random() < 0.7 else rng.choice(SRC_TYPES))
     own_refcode = refcode is None
@@ -482,6 +482,7 @@ def gen_src(rng, u, primary, creator, srctype=None, refcode=None, ncallouts=None
             refcode = "1100" + reason
         else:
             refcode = t + compb.replace("FX", "8D").replace("FY", "8D") + reason
+    given_words = words
     words = [rng.randrange(1 << 32) if rng.random() < 0.8 else rng.choice([0, 1, 0xFFFFFFFF, 0x80000000, 0x0000FFFF])
              for _ in range(8)]
     # make words distinct so that any swap shows
@@ -496,6 +497,8 @@ def gen_src(rng, u, primary, creator, srctype=None, refcode=None, ncallouts=None
         words[3] = w5
     if rng.random() < 0.04:
         words = [rng.choice([0, 0xFFFFFFFF, words[0]])] * 8          # every word the same value
+    if given_words is not None:
+        words = list(given_words)
     wc = wordcount if wordcount is not None else rng.choice([9, 9, 9, 1, 2, 3, 4, 5, 6, 7, 8, 0])
     flags = rng.randrange(256) & ~0x01
     if ncallouts is None:
